@@ -1142,23 +1142,26 @@ fn getset_command(
     // If output file specified, extract to file
     // Otherwise, extract to stdout (via temp file for simplicity)
     if let Some(output_path) = output {
-        // Extract each sample to the output file (append mode)
+        // Extract all requested samples into the one output file
+        let mut writer = ragc_core::GenomeWriter::<std::fs::File>::create(&output_path)?;
         for sample_name in &samples_to_extract {
             if verbosity > 0 {
                 eprintln!("Extracting sample: {sample_name}");
             }
-            decompressor.write_sample_fasta(sample_name, &output_path)?;
+            decompressor.write_sample_fasta_to(sample_name, &mut writer)?;
         }
     } else {
         // Extract to temp file then write to stdout
         let temp_path =
             std::env::temp_dir().join(format!("agc_extract_{}.fasta", std::process::id()));
+        let mut writer = ragc_core::GenomeWriter::<std::fs::File>::create(&temp_path)?;
         for sample_name in &samples_to_extract {
             if verbosity > 0 {
                 eprintln!("Extracting sample: {sample_name}");
             }
-            decompressor.write_sample_fasta(sample_name, &temp_path)?;
+            decompressor.write_sample_fasta_to(sample_name, &mut writer)?;
         }
+        drop(writer);
         // Write temp file to stdout
         let contents = std::fs::read(&temp_path)?;
         io::stdout().write_all(&contents)?;
